@@ -63,6 +63,10 @@ impl InlineCache {
     }
 
     pub(crate) fn set(&self, shape: &Shape, slot: Slot) {
+        #[cfg(boa_verif)]
+        if crate::verif::ic_off() {
+            return;
+        }
         if self.megamorphic.get() {
             return;
         }
@@ -87,6 +91,10 @@ impl InlineCache {
     ///
     /// Opportunistically cleans up stale weak shape references during lookup.
     pub(crate) fn get(&self, shape: &Shape) -> Option<(Shape, Slot)> {
+        #[cfg(boa_verif)]
+        if crate::verif::ic_off() {
+            return None;
+        }
         if self.megamorphic.get() {
             return None;
         }
